@@ -167,7 +167,7 @@ class StackWorld(object):
     for ev in evs:
       alts.append((ev.label(), 0, lambda ev=ev: self._fire(ev, 'ok')))
     for c in net.live_conns():
-      if c.write_blocked:
+      if c.write_blocked and 'block-long' not in self.p.get('faults', ()):
         alts.append(('unblock-writes c%d' % c.id, 0, lambda c=c: self._inject(c, 'unblock-writes')))
     if self.ops and self._op_enabled(self.ops[0]):
       op = self.ops[0]
@@ -199,6 +199,9 @@ class StackWorld(object):
           alts.append(('reset c%d' % c.id, 1, lambda c=c: self._inject(c, 'reset')))
         if 'block' in faults and not c.write_blocked and not getattr(c, 'was_blocked', False):
           alts.append(('block-writes c%d' % c.id, 1, lambda c=c: (setattr(c, 'was_blocked', True), self._inject(c, 'block-writes'))))
+        if 'block-long' in faults and not c.write_blocked and not getattr(c, 'was_blocked', False):
+          alts.append(('block-writes-after-6-bytes-for-33s c%d' % c.id, 1,
+                       lambda c=c: (setattr(c, 'was_blocked', True), self._inject(c, 'block-writes-partial-long'))))
         if 'block-partial' in faults and not c.write_blocked and not getattr(c, 'was_blocked', False):
           alts.append(('block-writes-after-6-bytes c%d' % c.id, 1,
                        lambda c=c: (setattr(c, 'was_blocked', True), self._inject(c, 'block-writes-partial'))))
@@ -290,7 +293,8 @@ class StackWorld(object):
               conn = self.net.conns[r['conn']]
               still_open = r['conn'] in c.conns_open_at_done and not conn.reset and not conn.eof and not conn.client_closed
               if still_open and r['tag'] in c.unanswered_at_done.get(r['conn'], ()):
-                if not any(d[1] == r['tag'] for d in conn.peer.discards):
+                later_discards = [x for x in self.server_log[r['seq'] + 1:] if x.get('conn') == r['conn'] and x.get('discard') == r['tag']]
+                if not later_discards:
                   self.v('C12.no-discard', 'call %d(%r) timed out at +%.4f after its request (tag %d) had been written to open '
                          'connection c%d; no Tdiscarded naming tag %d reached the server (discards seen: %r)'
                          % (c.idx, c.arg, t_done - vloop.EPOCH, r['tag'], r['conn'], r['tag'], [d[1] for d in conn.peer.discards]))
@@ -304,6 +308,9 @@ class StackWorld(object):
       if 'method' in r:
         if r['method'] != 'hi' or r['arg'] not in args:
           self.v('C02.server-saw-other', 'server decoded %r(%r), callers passed %r' % (r['method'], r['arg'], args))
+      elif 'unknown_type' in r:
+        self.v('C02.server-saw-garbage', 'on connection c%d the server received a frame of unknown type %r (tag %r): not something any '
+               'caller or the transport sends' % (r['conn'], r['unknown_type'], r.get('tag')))
       elif 'error' in r and 'raw' in r:
         self.v('C02.server-saw-garbage', 'on connection c%d the server received a frame that is not a request any caller passed (%s); '
                'first bytes %r' % (r['conn'], r['error'][:80], bytes(r['raw'][:24])))
